@@ -92,9 +92,9 @@ TaggedToWrap(e, i, L) ==
 TextKey(e) ==
   LET i == InpOf(e)
       L == e.obs.lines
-      wr == TaggedToWrap(e, i, L)
-      cls == {ClassOfText(i.rows[(c - 1) \div i.n + 1][((c - 1) % i.n) + 1]) : c \in wr}
-  IN IF wr # {} /\ BadClasses(i, L) \subseteq cls THEN "tagged-cell" ELSE ""
+      tw == TaggedToWrap(e, i, L)
+      cls == {ClassOfText(i.rows[(c - 1) \div i.n + 1][((c - 1) % i.n) + 1]) : c \in tw}
+  IN IF tw # {} /\ BadClasses(i, L) \subseteq cls THEN "tagged-cell" ELSE ""
 ExcKey(e) == IF e.tagged # <<>> THEN e.obs.cls \o "/tagged-cell" ELSE e.obs.cls
 
 Clauses(e) ==
